@@ -212,6 +212,9 @@ def point_expect(rd):
             "v": "x" if rd["out"] == "1" else rd["vol"], "e": rd["energy"]}
 
 
+ORACLE_STATS = {"delivered_slots": 0, "filtered_active_slots": 0}
+
+
 def oracle(line, I, O):
     """The property's own statements evaluated on the dumps of the REAL code (independent of
     the Lean model).  Returns list of (index, key, message)."""
@@ -267,6 +270,10 @@ def oracle(line, I, O):
                       and det_tbl[int(r["vol"], 16)] is not None
                       and not (nz and f64(q["edep"]) == 0.0))
             expect.append(ok)
+            if ok:
+                ORACLE_STATS["delivered_slots"] += 1
+            elif q is not None:
+                ORACLE_STATS["filtered_active_slots"] += 1
         views = [v.strip() for v in O[k].split(" | ")[1:]]
         if len(views) != len(specs):
             bad.append((k, "callback-count", f"{len(views)} views for {len(specs)} callbacks"))
@@ -514,6 +521,7 @@ def run(ctx):
             stats["inactive_slots"] += len(w) - sep - 1 - act
             if act and k < len(O):
                 distinct.add(I[k])
+    stats.update(ORACLE_STATS)
     if diverged:
         broken.append(f"correspondence: model and implementation differ on {len(diverged)} scenarios")
 
